@@ -69,6 +69,21 @@ fn cursor_routes<S: ReadableShape + Dump>(prefix: &str, shp: &[u8], shx: &[u8], 
         format!("{}/all/noidx/cursor", prefix),
         ShapeReader::new(c(shp)).map_err(e).and_then(|r| r.read_as::<S>().map(|v| v.iter().map(|s| s.d()).collect()).map_err(e)),
     ));
+    if prefix == "generic" {
+        // the untyped methods themselves (the `_as::<Shape>` variants above share most, not all, of their code)
+        out.push((
+            "untyped/nth/idx/cursor".to_string(),
+            ShapeReader::with_shx(c(shp), c(shx)).map_err(e).and_then(|mut r| nth_all(n, |i| r.read_nth_shape(i))),
+        ));
+        out.push((
+            "untyped/seq/idx/cursor".to_string(),
+            ShapeReader::with_shx(c(shp), c(shx)).map_err(e).and_then(|mut r| collect(r.iter_shapes(), n)),
+        ));
+        out.push((
+            "untyped/all/idx/cursor".to_string(),
+            ShapeReader::with_shx(c(shp), c(shx)).map_err(e).and_then(|r| r.read().map(|v| v.iter().map(|s| s.d()).collect()).map_err(e)),
+        ));
+    }
     // both reading routes of the property on ONE reader: every record by index, then all of them in sequence
     out.push((
         format!("{}/nth-then-seq/idx/cursor", prefix),
@@ -102,6 +117,9 @@ fn path_routes<S: ReadableShape + Dump>(prefix: &str, path: &str, n: usize, with
         format!("{}/all/{}/path", prefix, idx),
         shapefile::read_shapes_as::<_, S>(path).map(|v| v.iter().map(|s| s.d()).collect()).map_err(e),
     ));
+    if prefix == "generic" {
+        out.push((format!("untyped/all/{}/path", idx), shapefile::read_shapes(path).map(|v| v.iter().map(|s| s.d()).collect()).map_err(e)));
+    }
     out
 }
 
@@ -143,7 +161,16 @@ fn one_case(t: i32, i: usize, ctx: &Ctx, rep: &mut Report, dir: &str) {
     let mut shapes = match large {
         // a file with `sz` records (point types) / a shape with `sz` points and one with many parts
         Some(sz) if gen::is_point(t) => (0..sz).map(|_| gen::shape(t, &mut r, &Cfg::plain(1, 1))).collect(),
-        Some(sz) => vec![gen::shape_exact(t, &mut r, &Cfg::plain(1, 2), 1, sz), gen::shape_exact(t, &mut r, &Cfg::plain(1, 2), if gen::is_multipoint(t) { 1 } else { sz / 3 }, 3)],
+        Some(sz) => {
+            // a long part whose Z / M values are special (no-data, NaN, infinities), a shape with many
+            // parts, and for the largest sizes one with more than 4096 parts of two vertices
+            let hostile_zm = Cfg { dens: 0.5, ..Cfg::hostile(0.5, 1, 2) };
+            let mut v = vec![gen::shape_exact(t, &mut r, &if i % 2 == 0 { hostile_zm } else { Cfg::plain(1, 2) }, 1, sz), gen::shape_exact(t, &mut r, &Cfg::plain(1, 2), if gen::is_multipoint(t) { 1 } else { sz / 3 }, 3)];
+            if !gen::is_multipoint(t) && sz >= 4000 {
+                v.push(gen::shape_exact(t, &mut r, &Cfg::plain(1, 2), sz + 7, 2));
+            }
+            v
+        }
         None => gen::sequence(t, &mut r, &c, 1, if big { 3 } else { max_n }, i as u64),
     };
     if large.is_some() {
